@@ -40,6 +40,7 @@ class GeminiClientProtocol(asyncio.Protocol):
         url: str,
         response_future: asyncio.Future,
         send_on_connect: bool = True,
+        decode_body: bool = True,
     ):
         """Initialize the client protocol.
 
@@ -50,10 +51,14 @@ class GeminiClientProtocol(asyncio.Protocol):
                 (default). With False nothing is written until send_request() is
                 called - used by GeminiClient to verify the peer's certificate
                 (TOFU) before any request data leaves the machine.
+            decode_body: Decode text bodies with their declared charset (default).
+                With False every body is delivered as the raw bytes received -
+                used by the reverse proxy to relay responses unaltered.
         """
         self.url = url
         self.response_future = response_future
         self.send_on_connect = send_on_connect
+        self.decode_body = decode_body
         self.request_sent = False
         self.transport: asyncio.Transport | None = None
         self.buffer = b""
@@ -185,7 +190,7 @@ class GeminiClientProtocol(asyncio.Protocol):
             mime_type = (self.meta or "").split(";")[0].strip().lower()
             is_text = mime_type.startswith("text/") or mime_type == ""
 
-            if is_text:
+            if is_text and self.decode_body:
                 # Get charset from meta if specified, default to utf-8
                 charset = "utf-8"
                 # Parse charset from meta (e.g., "text/gemini; charset=iso-8859-1")
